@@ -797,12 +797,21 @@ def _write_pre(ctx, res, fn, bigbed):
     if bigbed:
         names["autoSqlOffset"] = segs[0][1].node
         e = segs[1][1]
-        if len(e) != 1 or e[0].kind != "b" or "as_bytes_with_nul()" not in up(e[0].arg):
+        from ..astq import upn as _upn
+        if len(e) != 1 or e[0].kind != "b" or ("as_bytes_with_nul()" not in up(e[0].arg) and "as_bytes_with_nul()" not in _upn(fn, e[0].arg) and "as_bytes_with_nul()" not in origin(fn, e[0].arg)):
             res.fail("writePre/autosql", e[0].node, "autoSql must be written as a C string with exactly one trailing NUL (CString::as_bytes_with_nul)")
         else:
             a0 = strip(e[0].arg)
+            if a0.k == "path":                      # `let bytes = cstring.as_bytes_with_nul(); write_all(bytes)`
+                i0_ = _let_init(fn, a0["path"], a0)
+                a0 = strip(i0_) if i0_ is not None else a0
             init = _let_init(fn, up(strip(a0["recv"])), a0) if a0.k == "mcall" else None
-            if init is None or "CString::new(" not in up(init):
+            if init is None and "CString::new(" in origin(fn, e[0].arg):
+                init = e[0].arg
+                ok_c = True
+            else:
+                ok_c = init is not None and "CString::new(" in up(init)
+            if not ok_c:
                 res.fail("writePre/autosql-cstring", e[0].node, "autoSql bytes must come from CString::new(text)")
             else:
                 res.ok(e[0].node, "autoSql text + single NUL written at the offset recorded as autoSqlOffset")
